@@ -1,5 +1,5 @@
 # C03 - reported content = infoset: the normalisation kernels (end-of-line handling, positions)
-CLAIMS = {'attscan': 'IGXMLScanner::scanAttValue on every scripted input of N units x attribute type: accepted silently iff a properly quoted literal of legal characters (complete surrogate pairs, no literal <), end of input reported, value = XML 1.0 3.3.3 normalisation', 'attnorm_sg': 'as attnorm for SGXMLScanner::normalizeAttValue (the schema scanner has its own copy)', 'attnorm': 'IGXMLScanner::normalizeAttValue on every intermediate attribute value of <= N units (literal vs. referenced characters) x attribute type: result = XML 1.0 3.3.3 normalisation, literal < reported, memory safe', 'reader_eol': 'XMLReader::getNextChar + handleEOL on every character sequence of <= NC units, external/internal entity, NEL on/off, XML 1.0/1.1: delivered characters and line/column equal XML 2.11 end-of-line normalisation'}
+CLAIMS = {'attscan_dg': 'as attscan for DGXMLScanner::scanAttValue (the DTD-only scanner has its own copy)', 'attscan': 'IGXMLScanner::scanAttValue on every scripted input of N units x attribute type: accepted silently iff a properly quoted literal of legal characters (complete surrogate pairs, no literal <), end of input reported, value = XML 1.0 3.3.3 normalisation', 'attnorm_sg': 'as attnorm for SGXMLScanner::normalizeAttValue (the schema scanner has its own copy)', 'attnorm': 'IGXMLScanner::normalizeAttValue on every intermediate attribute value of <= N units (literal vs. referenced characters) x attribute type: result = XML 1.0 3.3.3 normalisation, literal < reported, memory safe', 'reader_eol': 'XMLReader::getNextChar + handleEOL on every character sequence of <= NC units, external/internal entity, NEL on/off, XML 1.0/1.1: delivered characters and line/column equal XML 2.11 end-of-line normalisation'}
 ASSUMPTIONS = ['hook: small reader window', 'the entity is at its end (no refill needed): refills are covered by C04/reader_chunks']
 TUS = ['internal/XMLReader.cpp', 'util/BinInputStream.cpp']
 HARNESSES = [
@@ -19,6 +19,12 @@ HARNESSES = [
       cuts=['_ZN11xercesc_4_09XMLString9binToTextE*', '_ZN11xercesc_4_09XMLString10sizeToTextE*'],
       cuts_everywhere=['_ZNK11xercesc_4_09ReaderMgr19getCurrentReaderNumEv'],
       defs={'quick': {'N': 5}, 'thorough': {'N': 6}}, unwind='N+3', unwind_gentle=True, unwind_cap=40, timeout={'quick': 1200, 'thorough': 2400}, mem_gb=20),
+ dict(name='attscan_dg', entry='harness_attscan', srcs=['C03/attscan.cpp', 'C03/attscanstubs.cpp', 'C02/crstubs.cpp', 'C06/nsstubs.cpp'],
+      tus=['internal/DGXMLScanner.cpp', 'framework/XMLAttDef.cpp', 'framework/XMLBuffer.cpp', 'util/XMLChar.cpp', 'util/XMLString.cpp'],
+      const_tables=['_ZN11xercesc_4_010XMLChar1_019fgCharCharsTable1_0E', '_ZN11xercesc_4_010XMLChar1_119fgCharCharsTable1_1E'],
+      cuts=['_ZN11xercesc_4_09XMLString9binToTextE*', '_ZN11xercesc_4_09XMLString10sizeToTextE*'],
+      cuts_everywhere=['_ZNK11xercesc_4_09ReaderMgr19getCurrentReaderNumEv'],
+      defs={'quick': {'N': 5, 'SCANNER': 'DGXMLScanner'}, 'thorough': {'N': 6, 'SCANNER': 'DGXMLScanner'}}, unwind='N+3', unwind_gentle=True, unwind_cap=40, timeout={'quick': 1200, 'thorough': 2400}, mem_gb=20),
 ]
 LEVEL_TEXT = ('Bounded model checking of the real end-of-line normalisation and position tracking of the reader against a reference transcribed from XML 1.0/1.1 section 2.11, for ALL character sequences within the bound '
               '(CRLF, CR NEL, NEL, LSEP, lone CR; external vs. internal entities; NEL recognition on/off).')
